@@ -162,7 +162,9 @@ def check_query(acc: Acc, root, dump, uni, select: str, kinds: str, prios, group
     finally:
         db.fresh_process_state()
     acc.judged += 1
-    if acc.evaluations % 8 == 0:
+    if acc.evaluations % 8 == 0 and (orders or select == "note"):
+        # (without an O clause the command line adds ' O alpha' to non-note selections by design: C04 judges that
+        #  normalisation; here the two routes are compared on queries that spell their ordering)
         # the user-level route: `zorg query TEXT` (argument parser, query normalisation, runner) must print the same result
         rq = db.cli(root, "query", text)
         acc.count("cli.query_runs")
@@ -236,6 +238,11 @@ def check_query(acc: Acc, root, dump, uni, select: str, kinds: str, prios, group
             for lab, zs in exp_leaf.items():
                 want_n = len(split_items(base_leaves.get(lab, []))) if inner == "note" else len(base_leaves.get(lab, []))
                 lines = got.get(lab, [])
+                # an EMPTY property value ('  * owner::') is printed as an empty line, which the output parser cannot
+                # tell from spacing: such an entry is counted by count(.) but invisible in the parsed base listing
+                n_empty = 1 if (inner.startswith("prop:") and any("" in values_of(byz[zz], inner) for zz in zs)) else 0
+                if len(lines) == 1 and lines[0].isdigit() and n_empty and int(lines[0]) == want_n + n_empty:
+                    continue
                 if len(lines) != 1 or not lines[0].isdigit() or int(lines[0]) != want_n:
                     acc.violation(f"{text!r}: group {lab} prints {lines} but selecting {inner!r} yields {want_n} entries", case, cls="count(x) != number of entries of S x")
         else:
@@ -243,6 +250,7 @@ def check_query(acc: Acc, root, dump, uni, select: str, kinds: str, prios, group
                 want_vals = set()
                 for zz in zs:
                     want_vals.update(values_of(byz[zz], inner))
+                want_vals.discard("")  # (printed as an empty line: not visible to the output parser, not judged)
                 lines = got.get(lab, [])
                 if set(lines) != want_vals or len(lines) != len(set(lines)):
                     acc.violation(f"{text!r}: group {lab} lists {sorted(lines)[:6]} but the distinct values of its notes are {sorted(want_vals)[:6]}", case, cls="value list != distinct values of the group")
